@@ -25,6 +25,14 @@ structure Obs where
   cmap : List (Bytes × Bytes)          -- `case_map().items()`
 deriving DecidableEq, Repr
 
+/-- the observation of a header map through its public interface (what the harness prints for the
+    implementation; the driver computes it for the model) -/
+def observe (probes : List Bytes) (d : Hdrs) : Obs :=
+  { iter := CIDict.iter d
+    gets := probes.map fun k => (k, CIDict.getitem lower d k)
+    data := CIDict.asDict d
+    cmap := CIDict.caseMap d }
+
 /-- hypotheses on a header list under which the round trip is claimed (see `Props/C01.lean`) -/
 def validValue (v : Bytes) : Bool :=
   !v.contains CR && !v.contains LF && !v.contains 0
